@@ -334,3 +334,32 @@ def run_proc(ctx, seconds, nreaders=3, ngroups=4):
                     pass
         shutil.rmtree(base, ignore_errors=True)
     return agg, viol
+
+
+def single_writer_runs(ctx):
+    """The real (hooked) daemon binary receiving signals or losing a worker thread, with the single-writer
+    monitor on (count of live ShmWriter objects in the process). Returns (violations, coverage)."""
+    import json
+    import os
+    from . import sandbox
+    from .common import VERIF
+    viol = []
+    sig_cov = {"runs": 0, "published": 0}
+    if sandbox.available():
+        hooked = os.path.join(ctx.build_repo(["clock-bound-d"], release=False, features=["verif-hooks"]), "clockbound")
+        specs = ["", "SIGTERM", "SIGINT", "SIGHUP", "SIGUSR1", "SIGUSR2", "SIGQUIT", "SIGALRM", ":poller.loop:2:panic", ":writer.recv:2:return", "SIGTERM:poller.recv:3:panic"]
+        cmds, outs = [], []
+        for i, sp in enumerate(specs):
+            o = os.path.join(ctx.tmp, "c02stop-%d.json" % i)
+            outs.append(o)
+            cmds.append(sandbox.wrap(["python3", os.path.join(VERIF, "vlib", "nsrun.py"), "c02stop", hooked, o, sp]))
+        for (rc, text), o in zip(ctx.run_parallel(cmds, 120), outs):
+            if rc != 0 or not os.path.exists(o):
+                ctx.log("c02stop run lost rc=%s %s" % (rc, text[-200:]))
+                continue
+            for r in json.load(open(o)):
+                sig_cov["runs"] += 1
+                sig_cov["published"] += bool(r["published"])
+                if r["single_writer_reports"]:
+                    viol.append({"sig": "two-writers-in-the-daemon", "detail": "the daemon (signal %s, failpoint %s) had more than one ShmWriter alive at once: %s — the seqlock protocol has exactly one writer; two threads writing the segment can publish a blend under an even generation" % (r["signal"] or "none", r["failpoint"], r["single_writer_reports"][0]), "replay": ""})
+    return viol, sig_cov
